@@ -619,7 +619,9 @@ func ruleTypestate(c *Ctx) {
 		if ai := lb.findApply(); ai != nil {
 			lb.rootOnlyForEmptyPointer(l, ai)
 		}
+		lb.decodedOnlyBehindDecoder(l, c.nilFor(lb))
 	}
+	b.decodedOnlyBehindDecoder(l, a)
 	// T1: producer side for eDoc
 	for _, fn := range a.fns {
 		allInstrs(fn, func(i ssa.Instruction) {
@@ -963,6 +965,7 @@ func ruleStaleRaw(c *Ctx) {
 		a := c.nilFor(b)
 		l := c.L
 		b.decoderEntryOnFreshNodes(l, a)
+		b.noWayBackToText(l, a)
 		isArrayFn := b.roleFn("isArray")
 		// successState[f] = the constant f stores into recv.which (if exactly one)
 		successState := map[*ssa.Function]int64{}
@@ -1380,4 +1383,138 @@ func (a *nilAn) becomesTheDocument(h *ssa.Function, cj ssa.CallInstruction) (boo
 		return false, ""
 	}
 	return true, "the container handed back replaces the whole document at " + b.posOf(st) + " on every path on which the call succeeded, and a failure ends the operation: a node left as a nil array is then the null root itself, inside no document"
+}
+
+// noWayBackToText (R-STALERAW): a node that has been decoded never goes back to "read me from
+// my text". Once a container was built from a node's text, operations change the container
+// and not the text: marking the node unparsed again (to save the re-encoding of a subtree
+// "nothing happened to", or to leave no trace of a walk) throws away whatever earlier
+// operations did below it. The state eRaw is therefore stored only into a node created in the
+// same function, or together with a new text (the decode hook, which replaces raw as well).
+func (b *Body) noWayBackToText(l *Ledger, a *nilAn) {
+	key := "typestate: a decoded node never goes back to its text (which = eRaw is stored only into a fresh node or together with a new text)"
+	n := 0
+	bad := ""
+	var sites []string
+	for _, fn := range a.fns {
+		// the bases whose raw field is stored in this function
+		rawStored := map[ssa.Value]bool{}
+		allInstrs(fn, func(i ssa.Instruction) {
+			if st, ok := i.(*ssa.Store); ok {
+				if fa, ok := st.Addr.(*ssa.FieldAddr); ok && isPtrToNamed(fa.X.Type(), "lazyNode") && fieldOfAddr(fa).Field == "raw" {
+					rawStored[fa.X] = true
+				}
+			}
+		})
+		allInstrs(fn, func(i ssa.Instruction) {
+			st, ok := i.(*ssa.Store)
+			if !ok {
+				return
+			}
+			fa, ok := st.Addr.(*ssa.FieldAddr)
+			if !ok || !isPtrToNamed(fa.X.Type(), "lazyNode") || fieldOfAddr(fa).Field != "which" {
+				return
+			}
+			if k, isK := intConst(st.Val); isK && k != a.eRaw {
+				return
+			}
+			n++
+			switch {
+			case a.freshValue(fa.X):
+				sites = append(sites, b.posOf(st)+" fresh node")
+			case rawStored[fa.X]:
+				sites = append(sites, b.posOf(st)+" with a new text")
+			default:
+				bad = "the store at " + b.posOf(st) + " in " + fname(fn) + " marks an existing node as unparsed and leaves its text as it was: the containers built from it — and every change made in them since — are dropped, the node is read again from the text it had before"
+			}
+		})
+	}
+	if bad != "" {
+		l.add("R-STALERAW", b.Name, key, "", Violated, bad, true)
+		return
+	}
+	l.add("R-STALERAW", b.Name, key, "", Discharged, fmt.Sprintf("%d store(s) of the unparsed state: %s", n, strings.Join(sites, "; ")), true)
+}
+
+// decodedOnlyBehindDecoder (R-TYPESTATE): an existing node becomes an object or an array only
+// because the decoder read its text as one. Every store of a decoded state into the which
+// field of a node that was not created in the same function lies on the success edge of a
+// decoder call that was handed the node's doc or ary field: a probe that carries on after the
+// decoder refused the text (reading [] as an object without members, say) makes Equal and the
+// test operation see a value the text does not spell.
+func (b *Body) decodedOnlyBehindDecoder(l *Ledger, a *nilAn) {
+	for _, fn := range a.fns {
+		n := 0
+		bad := ""
+		allInstrs(fn, func(i ssa.Instruction) {
+			st, ok := i.(*ssa.Store)
+			if !ok {
+				return
+			}
+			fa, ok := st.Addr.(*ssa.FieldAddr)
+			if !ok || !isPtrToNamed(fa.X.Type(), "lazyNode") || fieldOfAddr(fa).Field != "which" {
+				return
+			}
+			if k, isK := intConst(st.Val); !isK || k == a.eRaw {
+				return
+			}
+			if a.freshValue(fa.X) {
+				return
+			}
+			n++
+			behind := false
+			decoders := 0
+			allInstrs(fn, func(j ssa.Instruction) {
+				call, ok := j.(*ssa.Call)
+				if !ok || behind {
+					return
+				}
+				takes := false
+				for _, arg := range call.Call.Args {
+					if af, ok := unwrapConv(arg).(*ssa.FieldAddr); ok && af.X == fa.X {
+						if f := fieldOfAddr(af).Field; f == "doc" || f == "ary" {
+							takes = true
+						}
+					}
+					if mi, ok := arg.(*ssa.MakeInterface); ok {
+						if af, ok := mi.X.(*ssa.FieldAddr); ok && af.X == fa.X {
+							if f := fieldOfAddr(af).Field; f == "doc" || f == "ary" {
+								takes = true
+							}
+						}
+					}
+				}
+				if !takes {
+					return
+				}
+				decoders++
+				for _, e := range errResultOf(call) {
+					for _, t := range errChecks(e) {
+						if t.Chain {
+							continue
+						}
+						if edgeDominates(t.Blk, 1-t.NonNilSucc, st.Block()) {
+							behind = true
+						}
+					}
+				}
+			})
+			if !behind {
+				if decoders == 0 {
+					bad = "the store at " + b.posOf(st) + " marks an existing node as decoded although no decoder call in " + fname(fn) + " was handed its doc or ary field"
+				} else {
+					bad = "the store at " + b.posOf(st) + " marks the node as decoded on a path on which the decoder's error was not nil: a text the decoder refused as this kind of value is taken for one all the same"
+				}
+			}
+		})
+		if n == 0 {
+			continue
+		}
+		key := fname(fn) + ": the node becomes decoded only behind the decoder's success"
+		if bad != "" {
+			l.add("R-TYPESTATE", b.Name, key, b.rel(fn.Pos()), Violated, bad, true)
+		} else {
+			l.add("R-TYPESTATE", b.Name, key, b.rel(fn.Pos()), Discharged, fmt.Sprintf("%d store(s) of a decoded state, each on the nil edge of the error of a decoder call that was given the node's own doc/ary field", n), true)
+		}
+	}
 }
